@@ -3,6 +3,7 @@ package spec
 import (
 	"fmt"
 	"io"
+	"slices"
 	"strings"
 
 	"github.com/moorara/algo/errors"
@@ -11,6 +12,21 @@ import (
 
 	"github.com/gardenbed/emerge/internal/ebnf/parser"
 )
+
+// inTextOrder returns the problems reported in err ordered by their text.
+// The grammar library walks its sets in a random order, so that the problems it finds come in a different order on every run.
+func inTextOrder(err error) []error {
+	parts := []error{err}
+	if m, ok := err.(interface{ Unwrap() []error }); ok {
+		parts = slices.Clone(m.Unwrap())
+	}
+
+	slices.SortStableFunc(parts, func(lhs, rhs error) int {
+		return strings.Compare(lhs.Error(), rhs.Error())
+	})
+
+	return parts
+}
 
 // parse processes an EBNF input, evaluates it, and returns the result of evaluation.
 // It returns the evaluation outcome or an error if parsing fails.
@@ -364,7 +380,7 @@ func Parse(filename string, src io.Reader) (*Spec, error) {
 
 			grammar := grammar.NewCFG(table.Terminals(), table.NonTerminals(), table.Productions(), "start")
 			if err := grammar.Verify(); err != nil {
-				errs = errors.Append(errs, err)
+				errs = errors.Append(errs, inTextOrder(err)...)
 			}
 
 			precedences := table.Precedences()
